@@ -69,6 +69,13 @@ def make_cases(ctx, n_schemas, depth, zoo_rate=0.3, perturb=10, modes=("Plain",)
                 c.ssrc, c.schema, c.value, c.origin, c.mode = ssrc, s, v, origin, m
                 c.unmodelled = None
                 cases.append(c)
+    if not (opts or {}).get("no_directed"):
+        for ssrc, vtext in gen.VTWINS:
+            for m in modes:
+                c = Case()
+                c.ssrc, c.schema, c.value, c.origin, c.mode = ssrc, gen.build(ssrc), eval(vtext, dict(gen.NS)), "twins", m
+                c.unmodelled = None
+                cases.append(c)
     return cases
 
 
